@@ -202,6 +202,7 @@ func evalLog(c *lcase) (string, int) {
 	var want []byte     // reference file content
 	var ends []int      // end offset of each complete entry
 	var kept []ent      // entries in the file
+	var stored []int64 // their stored microsecond values
 	failed := false
 	for i, e := range c.Entries {
 		fr, wire := mkFrame(e.F, c.Dialect)
@@ -235,7 +236,14 @@ func evalLog(c *lcase) (string, int) {
 		if err != nil {
 			return fmt.Sprintf("entry %d (%s): %v", i, frameNames[e.F], err), n
 		}
-		want = append(want, be64(floorMicro(times[e.T]))...)
+		// "to the microsecond": the stored value is within one microsecond of the entry time
+		// (truncation, the library's choice, or rounding to nearest; nothing else)
+		us := floorMicro(times[e.T])
+		if off := len(want); len(s.buf.Bytes()) >= off+8 && times[e.T].Nanosecond()%1000 != 0 && bytes.Equal(s.buf.Bytes()[off:off+8], be64(us+1)) {
+			us++
+		}
+		stored = append(stored, us)
+		want = append(want, be64(us)...)
 		want = append(want, wire...)
 		ends = append(ends, len(want))
 		kept = append(kept, e)
@@ -275,7 +283,7 @@ func evalLog(c *lcase) (string, int) {
 				if err != nil {
 					return fmt.Sprintf("cut at %d of %d: entry %d is complete but Read failed: %v", cut, len(data), i, err), n
 				}
-				if got, want := en.Time, time.UnixMicro(floorMicro(times[kept[i].T])).UTC(); !got.Equal(want) {
+				if got, want := en.Time, time.UnixMicro(stored[i]).UTC(); !got.Equal(want) {
 					return fmt.Sprintf("entry %d time %v, written %v (to the microsecond %v)", i, got, times[kept[i].T], want), n
 				}
 				if d := sameFrame(en.Frame, kept[i].F, c.Dialect); d != "" {
